@@ -192,7 +192,8 @@ func (m *model) dropDoomed(fact, why string, got []outEv, allowCreateFailed bool
 
 // proposalTransition: governance executed MsgTransitionGroup. newGroup is the tss group x/tss created for it
 // (0 if none was created).
-func (m *model) proposalTransition(passed bool, newGroup uint64, execTime time.Time, minExec, maxExec time.Time, h int64, got []outEv) string {
+// dupMember: the member list names one account twice (x/tss refuses to create such a group).
+func (m *model) proposalTransition(passed bool, newGroup uint64, dupMember bool, execTime time.Time, minExec, maxExec time.Time, h int64, got []outEv) string {
 	inWindow := !execTime.Before(minExec) && !execTime.After(maxExec)
 	if !passed {
 		m.check("MsgTransitionGroup rejected", got, nil)
@@ -201,6 +202,8 @@ func (m *model) proposalTransition(passed bool, newGroup uint64, execTime time.T
 			return "second-proposal-rejected"
 		case !inWindow:
 			return "window-rejected"
+		case dupMember:
+			return "duplicate-member-rejected"
 		}
 		m.count("converse_proposal_rejected_unexplained")
 		return "proposal-rejected-other"
